@@ -11,7 +11,7 @@ Require Import Base.Common Gen.LexTable Lex.Model Cur.Model Tree.Value Gen.Stati
 Import ListNotations.
 Open Scope string_scope.
 Open Scope list_scope.
-Open Scope nat_scope.
+Local Open Scope nat_scope.
 
 Definition NF {A} (r : res A) : Prop := r <> Err OutOfFuel.
 Lemma NF_ok {A} (a : A) : NF (Ok a). Proof. discriminate. Qed.
@@ -710,3 +710,165 @@ Qed.
 (* the budget the entry points use is adequate: no parse function, on any tokens, in any dialect, ends in OutOfFuel *)
 Corollary fuel_for_adequate f d a ts : run (fuel_for ts) f d a ts <> Err OutOfFuel.
 Proof. apply NF_run. pose proof (rank_lt_RK f). unfold fuel_for, RK in *. lia. Qed.
+
+(* ---------- the statement loop: a statement that is accepted has consumed at least one token ---------- *)
+Definition stmt_like (f : fn) : bool :=
+  match f with F_statement | F_select | F_single_select | F_insert | F_create_table => true | _ => false end.
+Lemma PG_of_SF_PR (x : PR) t1 ts : SF x t1 -> sz t1 < sz ts -> List.length t1 < List.length ts -> PG x ts.
+Proof. destruct x as [[v r0]|e]; [|intros; exact I]. sf_unfold. pg_unfold. intros H. apply sfx_both in H. lia. Qed.
+Lemma PG_of_SF_PR_le (x : PR) t1 ts : PG x t1 -> sz t1 <= sz ts -> List.length t1 <= List.length ts -> PG x ts.
+Proof. destruct x as [[v r0]|e]; [|intros; exact I]. pg_unfold. lia. Qed.
+Ltac pg_mp :=
+  lazymatch goal with
+  | |- PG (match match_pats ?ps ?ts with _ => _ end) _ =>
+      let P := fresh "P" in assert (P : PG (match_pats ps ts) ts) by (apply PG_match_pats; discriminate);
+      let t1 := fresh "t1" in destruct (match_pats ps ts) as [t1|]; [pg_unfold_in P; destruct P; apply (PG_of_SF_PR _ t1); [ssweep | lia | lia] | exact I]
+  end.
+Lemma PG_parse_insert_type ts : PG (parse_insert_type ts) ts.
+Proof.
+  unfold parse_insert_type.
+  pose proof (PG_take_up2 (S "INSERT") (S "INTO") ts) as P1. destruct (take_up2 (S "INSERT") (S "INTO") ts) as [b1 t1]. pg_unfold_in P1. destruct b1; [exact (P1 eq_refl)|].
+  pose proof (PG_take_up3 (S "INSERT") (S "IGNORE") (S "INTO") ts) as P2. destruct (take_up3 (S "INSERT") (S "IGNORE") (S "INTO") ts) as [b2 t2]. pg_unfold_in P2. destruct b2; [exact (P2 eq_refl)|].
+  pose proof (PG_take_up2 (S "INSERT") (S "OVERWRITE") ts) as P3. destruct (take_up2 (S "INSERT") (S "OVERWRITE") ts) as [b3 t3]. pg_unfold_in P3. destruct b3; [exact (P3 eq_refl)|exact I].
+Qed.
+
+Section BodyPG.
+  Variable rec : REC.
+  Variable d : sqltype.
+  Hypothesis HSF : forall f d' a ts, SF (rec f d' a ts) ts.
+  Hypothesis HPG : forall f d' a ts, stmt_like f = true -> PG (rec f d' a ts) ts.
+
+  Lemma PG_b_set ts : PG (b_set ts) ts. Proof. unfold b_set. pg_mp. Qed.
+  Lemma PG_b_use ts : PG (b_use ts) ts. Proof. unfold b_use. pg_mp. Qed.
+  Lemma PG_table_stmt cls kws ts : kws <> [] -> PG (table_stmt cls kws ts) ts.
+  Proof.
+    intros Hk. unfold table_stmt. assert (P : PG (match_pats (PS kws) ts) ts) by (apply PG_match_pats; destruct kws; [congruence|discriminate]).
+    destruct (match_pats (PS kws) ts) as [t1|]; [|exact I]. pg_unfold_in P. destruct P. apply (PG_of_SF_PR _ t1); [ssweep|lia|lia].
+  Qed.
+  Lemma PG_b_drop_table ts : PG (b_drop_table ts) ts. Proof. unfold b_drop_table. pg_mp. Qed.
+  Lemma PG_b_delete ts : PG (b_delete rec d ts) ts. Proof. unfold b_delete. pg_mp. Qed.
+  Lemma PG_b_analyze ts : PG (b_analyze rec d ts) ts. Proof. unfold b_analyze. pg_mp. Qed.
+  Lemma PG_b_alter_table ts : PG (b_alter_table rec d ts) ts. Proof. unfold b_alter_table. pg_mp. Qed.
+  Lemma PG_b_show_columns ts : PG (b_show_columns rec d ts) ts. Proof. unfold b_show_columns. pg_mp. Qed.
+  Lemma PG_b_update w ts : PG (b_update rec d w ts) ts. Proof. unfold b_update. pg_mp. Qed.
+  Lemma PG_b_create_table ts : PG (b_create_table rec d ts) ts. Proof. unfold b_create_table. pg_mp. Qed.
+  Lemma PG_b_insert w ts : PG (b_insert rec d w ts) ts.
+  Proof.
+    unfold b_insert.
+    assert (W : forall (x : res (value * toks)), SF x ts -> match x with Ok (_, t0) => sz t0 <= sz ts /\ List.length t0 <= List.length ts | Err _ => True end).
+    { intros [[v0 t0]|e0]; [|intros; exact I]. sf_unfold. apply sfx_both. }
+    match goal with |- PG (match ?e with _ => _ end) _ => assert (S0 : SF e ts) by (destruct w; ssweep); specialize (W e S0); destruct e as [[wc t0]|]; [|exact I] end.
+    pose proof (PG_parse_insert_type t0) as P. destruct (parse_insert_type t0) as [[it t1]|]; [|exact I]. pg_unfold_in P.
+    apply (PG_of_SF_PR _ t1); [ssweep|lia|lia].
+  Qed.
+  Lemma PG_b_select w ts : PG (b_select rec d w ts) ts.
+  Proof.
+    unfold b_select.
+    assert (W : forall (x : res (value * toks)), SF x ts -> match x with Ok (_, t0) => sz t0 <= sz ts /\ List.length t0 <= List.length ts | Err _ => True end).
+    { intros [[v0 t0]|e0]; [|intros; exact I]. sf_unfold. apply sfx_both. }
+    match goal with |- PG (match ?e with _ => _ end) _ => assert (S0 : SF e ts) by (destruct w; ssweep); specialize (W e S0); destruct e as [[wc t0]|]; [|exact I] end.
+    assert (P : PG (r1 rec d F_single_select wc t0) t0) by (unfold r1; apply HPG; reflexivity).
+    destruct (r1 rec d F_single_select wc t0) as [[q t1]|]; [|exact I]. pg_unfold_in P.
+    apply (PG_of_SF_PR _ t1); [ssweep|lia|lia].
+  Qed.
+
+  Lemma PG_b_select_clause ts : PG (b_select_clause rec d ts) ts. Proof. unfold b_select_clause. pg_mp. Qed.
+
+  (* the bracket stack: with an empty stack to start from, either nothing was stripped or the outermost remainder is strictly shorter *)
+  Lemma strip_parens_shape : forall n inner stack,
+    match strip_parens n inner stack with
+    | Ok (i', s') =>
+        (stack = [] -> (s' = [] /\ i' = inner) \/ (s' <> [] /\ sz (last s' []) < sz inner /\ List.length (last s' []) < List.length inner)) /\
+        (stack <> [] -> s' <> [] /\ last s' [] = last stack [])
+    | Err _ => True
+    end.
+  Proof.
+    induction n as [|n IH]; intros inner stack; cbn [strip_parens]; [exact I|].
+    destruct (peek_mark M_PAREN inner).
+    - pose proof (PG_pop_children inner) as P. destruct (pop_children inner) as [[ch rest]|e]; [|exact I]. pg_unfold_in P.
+      specialize (IH ch (rest :: stack)). destruct (strip_parens n ch (rest :: stack)) as [[i' s']|e]; [|exact I].
+      destruct IH as [_ IH]. destruct (IH ltac:(discriminate)) as [Hne Hl]. split.
+      + intros ->. right. split; [exact Hne|]. rewrite Hl. cbn [last]. lia.
+      + intros Hs. split; [exact Hne|]. rewrite Hl. destruct stack; [congruence|reflexivity].
+    - split; [intros ->; left; split; reflexivity|intros Hs; split; [exact Hs|reflexivity]].
+  Qed.
+
+  Ltac bind_step E :=
+    match type of E with
+    | ?X = Ok _ =>
+        let w := inner_scrut X in
+        lazymatch w with
+        | Ok _ => fail
+        | _ => let Q := fresh "Q" in destruct w eqn:Q; try discriminate E
+        end
+    end.
+  Lemma PG_b_single_select w ts : PG (b_single_select rec d w ts) ts.
+  Proof.
+    unfold b_single_select.
+    assert (W : forall (x : res (value * toks)), SF x ts -> match x with Ok (_, t0) => sz t0 <= sz ts /\ List.length t0 <= List.length ts | Err _ => True end).
+    { intros [[v0 t0]|e0]; [|intros; exact I]. sf_unfold. apply sfx_both. }
+    match goal with |- PG (match ?e with _ => _ end) _ => assert (S0 : SF e ts) by (destruct w; ssweep); specialize (W e S0); destruct e as [[wc t0]|]; [|exact I] end.
+    match goal with |- context [strip_parens ?n t0 []] => pose proof (strip_parens_shape n t0 []) as SH; destruct (strip_parens n t0 []) as [[inner stack]|]; [|exact I] end.
+    destruct SH as [SH _]. destruct (SH eq_refl) as [[-> ->]|(Hne & H1 & H2)].
+    - (* no brackets: the statement's own cursor; SELECT is consumed *)
+      pose proof (PG_b_select_clause t0) as P. destruct (b_select_clause rec d t0) as [[sel i1]|]; [|exact I]. pg_unfold_in P.
+      apply (PG_of_SF_PR _ i1); [ssweep|lia|lia].
+    - (* brackets: the cursor handed back is the outermost remainder *)
+      destruct stack as [|x l]; [exfalso; apply Hne; reflexivity|].
+      pose proof (close_stack_last l x) as CS. destruct (close_stack (x :: l)) as [r1|e1]; [subst r1|].
+      + match goal with |- PG ?X ts => destruct X as [[v r0]|] eqn:E; [|exact I] end.
+        repeat bind_step E. all: injection E as _ <-. all: destruct W as [W1 W2]; pg_unfold; cbn [last] in *; lia.
+      + match goal with |- PG ?X ts => destruct X as [[v r0]|] eqn:E; [|exact I] end.
+        repeat bind_step E.
+  Qed.
+
+  Lemma PG_b_statement ts : PG (b_statement rec d ts) ts.
+  Proof.
+    unfold b_statement.
+    repeat match goal with
+           | |- PG (if ?c then _ else _) _ =>
+               destruct c; [first [ apply PG_b_set | apply PG_b_delete | apply PG_b_drop_table | apply PG_b_analyze | apply PG_b_alter_table | apply PG_b_use
+                                  | apply PG_b_show_columns | (apply PG_table_stmt; discriminate) | (unfold r; apply HPG; reflexivity) ]|]
+           | |- PG (let '(_, _) := ?p in _) _ =>
+               let P := fresh "P" in let b := fresh "b" in let tt := fresh "tt" in
+               assert (P : PG p ts) by eauto 2 with pg; destruct p as [b tt]; pg_unfold_in P;
+               destruct b; [pg_unfold; exact (P eq_refl)|clear P]
+           end.
+    pose proof (SF_b_with_clause rec d HSF ts) as S0. destruct (b_with_clause rec d ts) as [[wc t1]|]; [|exact I]. sf_unfold_in S0. apply sfx_both in S0. destruct S0.
+    destruct (peek_up (S "SELECT") t1); [apply (PG_of_SF_PR_le _ t1); [unfold r1; apply HPG; reflexivity|lia|lia]|].
+    destruct (peek_up (S "INSERT") t1); [apply (PG_of_SF_PR_le _ t1); [unfold r1; apply HPG; reflexivity|lia|lia]|].
+    destruct (peek_up (S "UPDATE") t1); [apply (PG_of_SF_PR_le _ t1); [apply PG_b_update|lia|lia]|exact I].
+  Qed.
+
+  Theorem PG_body f a ts : stmt_like f = true -> PG (body rec d f a ts) ts.
+  Proof.
+    intros Hf. destruct f; try discriminate Hf; unfold body.
+    - apply PG_b_single_select.
+    - apply PG_b_select.
+    - apply PG_b_insert.
+    - apply PG_b_create_table.
+    - apply PG_b_statement.
+  Qed.
+End BodyPG.
+
+Theorem PG_run : forall fuel f d a ts, stmt_like f = true -> PG (run fuel f d a ts) ts.
+Proof.
+  induction fuel as [|n IH]; intros f d a ts Hf; cbn [run]; [exact I|].
+  apply PG_body; [intros; apply SF_run|intros; apply IH; assumption|exact Hf].
+Qed.
+
+(* parse_statements: the loop budget (one more than the number of tokens) and the recursion budget of the whole text are adequate
+   for every statement of the script *)
+Lemma fuel_for_mono t ts : sz t <= sz ts -> fuel_for t <= fuel_for ts. Proof. unfold fuel_for. lia. Qed.
+Theorem NF_statements_loop : forall n fuel d ts acc, List.length ts < n -> RK * sz ts + rank F_statement < fuel ->
+  NF (statements_loop n fuel d ts acc).
+Proof.
+  induction n as [|n IH]; intros fuel d ts acc Hl Hf; [exfalso; lia|]. cbn [statements_loop].
+  destruct (is_finish ts); [apply NF_ok|].
+  pose proof (NF_run fuel F_statement d None ts Hf) as N. pose proof (PG_run fuel F_statement d None ts eq_refl) as P.
+  destruct (run fuel F_statement d None ts) as [[v t1]|e]; [|exact (NF_err_cast e N)]. pg_unfold_in P.
+  pose proof (SF_take_str (S ";") t1) as S1. destruct (take_str (S ";") t1) as [b t2]. sf_unfold_in S1. apply sfx_both in S1.
+  apply IH; [lia|]. cbn [rank] in *. unfold RK in *. lia.
+Qed.
+Corollary script_budget_adequate d ts : statements_loop (Datatypes.S (List.length ts)) (fuel_for ts) d ts [] <> Err OutOfFuel.
+Proof. apply NF_statements_loop; [lia|]. unfold fuel_for, RK. cbn [rank]. lia. Qed.
